@@ -6,26 +6,26 @@ import re
 from harness import common as C
 
 PINS = {
-    'C01': ['dag_iter', 'status_queries', 'pipeline_glue', 'exec_container'],
-    'C02': ['status_queries', 'pipeline_glue', 'exec_assignment', 'exec_container'],
-    'C03': ['exec_pool', 'exec_executor', 'exec_assignment'],
-    'C04': ['exec_pool', 'exec_container', 'segment_class'],
-    'C05': ['exec_container', 'segment_class'],
-    'C06': ['sim_loop', 'status_queries', 'exec_executor', 'exec_pool', 'exec_container', 'exec_assignment'],
-    'C07': ['sim_loop', 'exec_executor', 'exec_container', 'param_defaults', 'sched_registry', 'workload_gen', 'exec_pool', 'exec_assignment'],
-    'C08': ['sim_loop', 'dag_iter', 'exec_executor', 'param_defaults', 'sched_registry', 'workload_gen', 'sched_wrapper', 'exec_pool', 'exec_container', 'exec_assignment'],
-    'C09': ['exec_pool', 'exec_executor', 'exec_assignment', 'exec_container'],
-    'C10': ['exec_pool', 'exec_container'],
-    'C11': ['exec_pool', 'exec_container'],
-    'C12': ['status_queries', 'sched_wrapper', 'waiting_queue', 'exec_pool', 'exec_container', 'exec_assignment'],
-    'C13': ['trace_replay', 'csv_io', 'cli_run', 'workload_base', 'sim_loop', 'cli_main'],
-    'C14': ['trace_replay', 'csv_io', 'segment_class', 'workload_base'],
-    'C15': ['workload_gen'],
-    'C20': ['cli_main', 'tools_cli'],
-    'C16': ['status_queries', 'sched_wrapper', 'waiting_queue', 'exec_pool', 'exec_container', 'exec_assignment'],
-    'C17': ['status_queries', 'sched_wrapper', 'exec_pool', 'exec_container', 'exec_assignment'],
-    'C18': ['status_queries', 'sched_wrapper', 'exec_pool', 'exec_container', 'exec_assignment'],
-    'C19': ['sim_loop', 'sched_wrapper', 'exec_pool', 'exec_container', 'exec_assignment', 'to_dicts', 'to_dicts_pool', 'to_dicts_result'],
+    'C01': ['dag_iter', 'status_queries', 'pipeline_glue', 'exec_container', 'glue_modules'],
+    'C02': ['status_queries', 'pipeline_glue', 'exec_assignment', 'exec_container', 'glue_modules'],
+    'C03': ['exec_pool', 'exec_executor', 'exec_assignment', 'glue_modules'],
+    'C04': ['exec_pool', 'exec_container', 'segment_class', 'glue_modules'],
+    'C05': ['exec_container', 'segment_class', 'glue_modules'],
+    'C06': ['sim_loop', 'status_queries', 'exec_executor', 'exec_pool', 'exec_container', 'exec_assignment', 'glue_modules', 'sched_wrapper'],
+    'C07': ['sim_loop', 'exec_executor', 'exec_container', 'param_defaults', 'sched_registry', 'workload_gen', 'exec_pool', 'exec_assignment', 'glue_modules', 'sched_naive_full', 'sched_priority_full', 'sched_ppool_full', 'sched_overbook_full'],
+    'C08': ['sim_loop', 'dag_iter', 'exec_executor', 'param_defaults', 'sched_registry', 'workload_gen', 'sched_wrapper', 'exec_pool', 'exec_container', 'exec_assignment', 'glue_modules', 'sched_naive_full', 'sched_priority_full', 'sched_ppool_full', 'sched_overbook_full', 'cli_main'],
+    'C09': ['exec_pool', 'exec_executor', 'exec_assignment', 'exec_container', 'glue_modules'],
+    'C10': ['exec_pool', 'exec_container', 'glue_modules', 'sched_priority_full'],
+    'C11': ['exec_pool', 'exec_container', 'glue_modules'],
+    'C12': ['status_queries', 'sched_wrapper', 'waiting_queue', 'exec_pool', 'exec_container', 'exec_assignment', 'glue_modules', 'sim_loop', 'exec_executor', 'sched_priority_full', 'sched_ppool_full'],
+    'C13': ['trace_replay', 'csv_io', 'cli_run', 'workload_base', 'sim_loop', 'cli_main', 'glue_modules'],
+    'C14': ['trace_replay', 'csv_io', 'segment_class', 'workload_base', 'glue_modules'],
+    'C15': ['workload_gen', 'glue_modules'],
+    'C20': ['cli_main', 'tools_cli', 'glue_modules'],
+    'C16': ['status_queries', 'sched_wrapper', 'waiting_queue', 'exec_pool', 'exec_container', 'exec_assignment', 'glue_modules', 'sim_loop', 'exec_executor', 'sched_ppool_full'],
+    'C17': ['status_queries', 'sched_wrapper', 'exec_pool', 'exec_container', 'exec_assignment', 'glue_modules', 'sim_loop', 'exec_executor', 'sched_naive_full'],
+    'C18': ['status_queries', 'sched_wrapper', 'exec_pool', 'exec_container', 'exec_assignment', 'glue_modules', 'sim_loop', 'exec_executor', 'sched_overbook_full'],
+    'C19': ['sim_loop', 'sched_wrapper', 'exec_pool', 'exec_container', 'exec_assignment', 'to_dicts', 'to_dicts_pool', 'to_dicts_result', 'glue_modules', 'sched_rest_full'],
 }
 IMPORTS = 'From Eudoxia Require Import Model.ExecSrc.\n'
 
